@@ -132,7 +132,88 @@ func (r *runner) arm(intr *IntrJ) *window {
 	return win
 }
 
+// armDelete installs the mirror-image hook: when the next Delete/DeleteUpstream is about to make its first API call
+// (it holds the store mutex, DeleteUpstream has listed its items), another goroutine starts the Flush/Stop `intr`.
+// On a store whose flush takes the mutex before its snapshot the flush parks at once and runs after the deletion.
+func (r *runner) armDelete(intr *IntrJ) *window {
+	win := &window{}
+	r.sim.setHook(func(kind, name string) bool {
+		if kind != "delete" {
+			return false
+		}
+		me := goID()
+		win.opened = true
+		win.m1 = r.mark()
+		r.sim.setWindow(true)
+		gidCh, done := spawn(r.thunk(intr.Op))
+		o, blocked := watch(<-gidCh, done)
+		win.done = done
+		switch {
+		case blocked:
+			win.blocked = true
+			r.sim.closeGate(me)
+		case o.hung || o.panicked != "":
+			win.fail = o.bad("concurrent " + intr.Op.Op)
+		default:
+			win.inside = true
+			win.outcome = o
+			win.apiAfter = r.api()
+			if intr.Op.Op == "stop" && o.err == nil {
+				r.stopped = true
+			}
+		}
+		win.m2 = r.mark()
+		r.sim.setWindow(false)
+		return true
+	})
+	return win
+}
+
 // ---------------------------------------------------------------------------------------------------------
+
+// genDeleteProbe: conditions saved (and, on a periodic store, flushed), then a deletion during whose critical section
+// a Flush/Stop is started.
+func genDeleteProbe(r *rand.Rand) Case {
+	cs := Case{Kind: "probe", Count: 1 + r.Intn(2), WT: r.Intn(2) == 0, Wf: true, CrashAt: -1}
+	cs.Shard = r.Intn(cs.Count)
+	own, _ := ownUpstreams(cs.Shard, cs.Count)
+	if len(own) == 0 {
+		cs.Shard, cs.Count, own = 0, 1, upstreamsU
+	}
+	cs.Gain = cs.Shard
+	cs.Init = genInit(r, true)
+	names := []string{}
+	for i, n := 0, 1+r.Intn(4); i < n; i++ {
+		up := rig.Pick(r, own)
+		name := up + "." + rig.Pick(r, suffixes)
+		names = append(names, name)
+		cs.Ops = append(cs.Ops, OpJ{Op: "save", Key: rig.Hex(up), Cond: genCond(r, up, name)})
+	}
+	if r.Intn(4) != 0 {
+		cs.Ops = append(cs.Ops, OpJ{Op: "flush"})
+	}
+	if r.Intn(3) == 0 {
+		cs.Ops = append(cs.Ops, OpJ{Op: "load"})
+	}
+	name := rig.Pick(r, names)
+	up := name[:strings.IndexByte(name, '.')]
+	f := OpJ{Op: "flush"}
+	if r.Intn(3) == 0 {
+		f.Op = "stop"
+	}
+	d := OpJ{Op: "delete", Key: rig.Hex(up), Name: rig.Hex(name), Intr: &IntrJ{Op: f}}
+	if r.Intn(3) == 0 {
+		d = OpJ{Op: "deleteUpstream", Key: rig.Hex(up), Intr: &IntrJ{Op: f}}
+	}
+	cs.Ops = append(cs.Ops, d)
+	for i := r.Intn(3); i > 0; i-- {
+		cs.Ops = append(cs.Ops, genOp(r, &cs, cs.Shard, true))
+	}
+	if r.Intn(4) == 0 {
+		cs.Script = genScript(r, 3*len(cs.Ops))
+	}
+	return cs
+}
 
 func genProbe(r *rand.Rand) Case {
 	cs := Case{Kind: "probe", Count: 1 + r.Intn(2), WT: r.Intn(3) != 0, Wf: true, CrashAt: -1}
@@ -201,7 +282,11 @@ func generateProbes(c *rig.Ctx) {
 	n := c.Budget(400, 8000)
 	cases := make([]Case, 0, n)
 	for i := 0; i < n; i++ {
-		cases = append(cases, genProbe(c.Rng))
+		if i%3 == 2 {
+			cases = append(cases, genDeleteProbe(c.Rng))
+		} else {
+			cases = append(cases, genProbe(c.Rng))
+		}
 	}
 	evaluate(c, cases)
 }
